@@ -139,6 +139,14 @@ def main(ctx, args):
         for fl in ((1, 1, 0), (1, 0, 0), (0, 0, 0)):
             reqs.append("M %d %d %d %d 1 %s %s" % (fl[0], fl[1], fl[2], NG, b.hex(), ltxt.encode().hex()))
             meta.append(({"p": None, "raw": b.hex()}, [ord(ch) for ch in ltxt], fl))
+    # truncated multi-byte sequences as patterns (alone, after and before a letter, under an operator) on lines that hold the whole
+    # characters: a match may not begin or end inside a character (both matchers, all flag values)
+    for hx in ("c3", "61c3", "c361", "e6", "e6bc", "61e6bc", "f09f", "f09f98", "c32a", "e6bc2a", "28c329", "5bc35d", "c3a9c3", "e6bca2e6"):
+        for ltxt in ("\u00e9a\u6f22 b\n", "\u6f22\n", "a\U0001f600b\n", "\u00e9\u00e9\n", "a\u00e9\n"):
+            for fl in ((0, 0, 0), (1, 0, 0), (0, 1, 1)):
+                for kind in "MS":
+                    reqs.append("%s %d %d %d %d 1 %s %s" % (kind, fl[0], fl[1], fl[2], NG, hx, ltxt.encode().hex()))
+                    meta.append(({"p": None, "raw": hx}, [ord(ch) for ch in ltxt], fl))
     for ptxt, ltxt in CORPUS:
         reqs.append("M 0 0 0 %d 1 %s %s" % (NG, ptxt.encode().hex(), ltxt.encode().hex()))
         meta.append(({"p": [ord(ch) for ch in ptxt], "corpus": 1, "eloop": 0 if ptxt in NESTED_CORPUS else 1, "nest": 1 if ptxt in NESTED_CORPUS else 0,
